@@ -195,7 +195,7 @@ def run_case(case: dict) -> dict:
     def emit_ack(ack):
         cnt["ack"] += 1
         cnt["since_ack"] = 0
-        lost = cnt["ack"] in lose_ack
+        lost = cnt["ack"] in lose_ack and not cnt.get("quiet")
         kind, frames = ("none", [ack]) if lost else disturb(ack)
         # for the server model the acknowledge is "lost" when the client did not get it intact
         ev.append({"e": "ack", "r": B(ack), "lost": lost or kind in ("drop", "abort", "cs"), "kind": kind,
@@ -208,7 +208,9 @@ def run_case(case: dict) -> dict:
         for s in segs:
             cnt["sseg"] += 1
             how, dlv = "ok", s
-            if cnt["sseg"] in lose:
+            if cnt.get("quiet"):
+                pass
+            elif cnt["sseg"] in lose:
                 how, dlv = "lost", None
             elif cnt["sseg"] in flip:
                 how = "flip"
@@ -225,7 +227,9 @@ def run_case(case: dict) -> dict:
 
     def emit_end(fr):
         how, dlv = "ok", fr
-        if case.get("wrongcrc"):
+        if cnt.get("quiet"):
+            pass
+        elif case.get("wrongcrc"):
             how, dlv = "wrongcrc", fr[:1] + bytes([fr[1] ^ 0x5A]) + fr[2:]
         elif case.get("wrongend_ss") is not None:
             # everything of the end frame intact (unused-byte count, checksum) but the subcommand
@@ -250,7 +254,7 @@ def run_case(case: dict) -> dict:
                 return
             cnt["seg"] += 1
             cnt["since_ack"] = cnt.get("since_ack", 0) + 1
-            lost = cnt["seg"] in lose_seg
+            lost = cnt["seg"] in lose_seg and not cnt.get("quiet")
             ev.append({"e": "seg", "q": B(q), "lost": lost})
             if not lost:
                 ack = srv.dl_seg(q)
@@ -309,20 +313,28 @@ def run_case(case: dict) -> dict:
     sdo = node.sdo
     idx, sub = case.get("idx", 0x2000), case.get("sub", 0)
     data = bytes(case.get("data", []))
-    for rnd in range(2 if case.get("fault") else 1):
-      if rnd == 1:
+    rounds = (["pre"] if case.get("pre_crc_off") else []) + ["main"] + (["follow"] if case.get("fault") else [])
+    for rnd in rounds:
+      crc_now = case.get("crc", True)
+      if rnd == "pre":
+        # an undisturbed transfer of the same kind without CRC on the same client comes first
+        crc_now, cnt["quiet"], fcnt["on"] = False, True, False
+      elif rnd == "main":
+        cnt.update(seg=0, ack=0, sseg=0, quiet=False)
+        fcnt["on"] = bool(fault)
+      else:
         fcnt["on"] = False      # the follow-up transfer on the same client and server is undisturbed
         if case.get("stale_between"):
             deliver(STALE)
       if case["op"] == "bdl":
           ev.append({"e": "call", "op": "bdl", "idx": idx, "sub": sub, "data": B(data),
-                     "size": case.get("size", len(data)), "crc": bool(case.get("crc", True)),
+                     "size": case.get("size", len(data)), "crc": bool(crc_now),
                      "sizecheck": bool(case.get("size_check", True))})
           try:
               size = case.get("size", len(data))
               fp = sdo.open(idx, sub, "wb", buffering=case.get("buffering", 1024),
                             size=None if size < 0 else size, block_transfer=True,
-                            request_crc_support=case.get("crc", True))
+                            request_crc_support=crc_now)
               try:
                   if case.get("raw_reuse"):
                       # unbuffered stream: the caller feeds 7-byte pieces from ONE reused buffer
@@ -347,11 +359,11 @@ def run_case(case: dict) -> dict:
               ev.append(_classify(exc))
       else:
           ev.append({"e": "call", "op": "bul", "idx": idx, "sub": sub, "data": [],
-                     "crc": bool(case.get("crc", True))})
+                     "crc": bool(crc_now)})
           try:
               out = b""
               with sdo.open(idx, sub, "rb", buffering=case.get("buffering", 1024), block_transfer=True,
-                            request_crc_support=case.get("crc", True)) as fp:
+                            request_crc_support=crc_now) as fp:
                   for n in case.get("reads", []):
                       out += fp.read(n) or b""
                   # one read() to the end, as a caller does it (a read() that stops early is the
